@@ -58,8 +58,12 @@ def example_sources(rng, k):
         return ['p%d = t(%d); q%d = p%d + 1' % (k, k, k, k)], None, None
     if r < 0.74:
         return ['# a comment', 'c%d = t(%d)' % (k, k)], None, None
-    if r < 0.80:
+    if r < 0.775:
         return ["boom(%d, ValueError, 'bad %d')" % (k, k)], None, None                      # expected traceback
+    if r < 0.80:
+        # writes to stdout, then raises: the standard module ignores what was printed before an expected exception
+        # (the want is the traceback alone), and the text must not turn up in a later example's output either
+        return ["pr(%d) and boom(%d, ValueError, 'late %d')" % (k, k, k)], None, None
     if r < 0.84:
         msg = rng.choice(["'k%d'" % k, "'bad value 1.5 in v2.x (%d)'" % k, "'see file settings.ini: line %d'" % k, "'a: b.c'"])
         cls = rng.choice(['KeyError', 'ValueError', 'ZeroDivisionError'])
